@@ -10,12 +10,12 @@ import (
 	"verifharness/internal/stats"
 )
 
-// knownDirtyReopen is the open known finding KF-C09-1: Set/Add/Delete write the size and the raw-key index through to
+// knownDirtyReopen is the former known finding KF-C09-1 (repaired in /repo, see known_findings.json; every deviation is
+// a violation now): Set/Add/Delete wrote the size and the raw-key index through to
 // the store at once, the trie nodes and the root only with Commit. An instance that is opened over a store whose last
 // Commit was followed by changes that were never committed reports the committed Root and Get/Has contents, but the
 // Size and the streamed key set of the uncommitted state. The generated histories of this package only reopen when
 // nothing was changed since the last Commit; this test performs exactly the other case.
-const knownDirtyReopen = "KF-C09-1"
 
 type dirtyOp struct {
 	Del bool
@@ -26,12 +26,11 @@ type dirtyOp struct {
 // TestKnownDirtyReopen: committed phase (Set/Delete ..., Commit), dirty phase (Set/Delete ..., no Commit), reopen.
 // Classification of what the new instance reports (Root, Get/Has over the universe, Size, Stream):
 //   - everything equals the committed state: consistent (the finding did not show);
-//   - Root and Get/Has equal the committed state, Size and the streamed keys equal the uncommitted state, and the two
-//     states differ in their key sets: the signature of KF-C09-1 (stats.Known, never a failure);
-//   - anything else: a violation.
+//   - anything else (the signature of the former KF-C09-1 included: Size and the streamed keys of the uncommitted state):
+//     a violation.
 func TestKnownDirtyReopen(t *testing.T) {
 	const check = "known_dirty_reopen"
-	stats.Rule(check, "rapid draws flavour (map, set), store (mapdb, mapdb with realm), 1..6 committed operations and 1..4 uncommitted operations (Set/Add or Delete over 5 keys, values 1..3), then opens a new instance over the store. The new instance must report the committed Root and Get/Has contents (anything else is a violation); if Size and the streamed key set are those of the committed state as well the reopen is consistent; if they are those of the uncommitted state (and the key sets differ) the case shows the known finding KF-C09-1 and is counted. Distinct by script; non-trivial = the uncommitted operations change the key set")
+	stats.Rule(check, "rapid draws flavour (map, set), store (mapdb, mapdb with realm), 1..6 committed operations and 1..4 uncommitted operations (Set/Add or Delete over 5 keys, values 1..3), then opens a new instance over the store. The new instance must report the committed Root, Get/Has contents, Size and streamed key set (the former known finding KF-C09-1: Size and Stream of the uncommitted state). Distinct by script; non-trivial = the uncommitted operations change the key set")
 	rapid.Check(t, func(rt *rapid.T) {
 		flavour := rapid.SampledFrom([]string{"map", "set"}).Draw(rt, "flavour")
 		storeKind := rapid.SampledFrom([]string{"mapdb", "mapdb_realm"}).Draw(rt, "store")
@@ -128,9 +127,6 @@ func TestKnownDirtyReopen(t *testing.T) {
 		switch {
 		case r.Size() == len(cKeys) && got == strings.Join(cKeys, ","):
 			stats.Label(check, "consistent_with_committed_state")
-		case !sameKeys && r.Size() == len(dKeys) && got == strings.Join(dKeys, ","):
-			stats.Known(knownDirtyReopen)
-			stats.Label(check, "known_KF-C09-1_observed")
 		default:
 			fail("the new instance reports Size %d and streams [%s]; committed state: %d keys [%s]; uncommitted state of the first instance: %d keys [%s] - neither of the two", r.Size(), got, len(cKeys), strings.Join(cKeys, ","), len(dKeys), strings.Join(dKeys, ","))
 		}
